@@ -590,7 +590,7 @@ func (s *Service) handleSuccessfulResponse(ctx context.Context, w http.ResponseW
 	if streamErr != nil && !errors.Is(streamErr, context.Canceled) {
 		rlog.Debug("streaming error", "error", streamErr, "bytes_written", bytesWritten)
 		s.RecordFailure(ctx, endpoint, time.Since(stats.StartTime), streamErr)
-		return common.MakeUserFriendlyError(streamErr, time.Since(stats.StartTime), "streaming", s.configuration.GetResponseTimeout())
+		return &core.ResponseStartedError{Err: common.MakeUserFriendlyError(streamErr, time.Since(stats.StartTime), "streaming", s.configuration.GetResponseTimeout())}
 	}
 
 	// Extract metrics from response if available
